@@ -17,10 +17,16 @@ REPO = "/repo"
 SCRATCH = os.environ.get("WT_SCRATCH") or tempfile.mkdtemp(prefix="wt-selftest-")
 
 
+FROM_HEAD = "--from-head" in sys.argv  # harness use only: copy /repo's HEAD commit instead of its working tree
+
+
 def copy_repo(dst):
     if os.path.exists(dst):
         shutil.rmtree(dst)
     os.makedirs(dst)
+    if FROM_HEAD:
+        subprocess.run("git -C /repo archive HEAD | tar -x -C %s && cp /repo/Cargo.lock %s/" % (dst, dst), shell=True, check=True)
+        return
     for name in os.listdir(REPO):
         if name in ("target", ".git"):
             continue
